@@ -20,6 +20,10 @@ def scenarios(rnd, n, scan):
         g = rnd.choice([3, 3, 4, 6])
         gen = gen_ledger.Gen(rnd, g, 2)
         kind = i % 4
+        if i % 8 == 5:
+            out.append(gen_ledger.deep_reorg_restart_scenario(rnd))
+            out[-1]["replica"] = False
+            continue
         if kind == 3:
             s = gen_ledger.dusty_scenario(rnd)
         else:
